@@ -363,6 +363,8 @@ def _ptype_el(pt: PType) -> El:
     kids = []
     if pt.unit is not None:
         kids.append(El("UnitSet", children=[El("Unit", text=pt.unit)]))
+    else:
+        kids.append(El("UnitSet"))   # the customary empty unit set
     kids.append(_enc_el(pt.enc))
     if pt.kind == "Enumerated":
         kids.append(El("EnumerationList", children=[El("Enumeration", {"value": _num(v) if not isinstance(v, str) else v,
@@ -432,16 +434,29 @@ def count_positions(doc: Doc) -> int:
             walk(k)
         if e.children:
             n[0] += 1  # after the last child, before the end tag
+        elif e.text is None:
+            n[0] += 1  # inside an element that is otherwise empty
     for k in doc_tree(doc).children:
         walk(k)
     return n[0] + 1
 
 
 BOOL_ATTRS = ("useCalibratedValue", "abstract", "extrapolate")
+# attribute values that equal the library's documented default: a document that leaves them out means the same
+DEFAULT_ATTRS = {
+    ("Comparison", "comparisonOperator"): "==", ("Comparison", "useCalibratedValue"): "true",
+    ("ParameterInstanceRef", "useCalibratedValue"): "true",
+    ("IntegerDataEncoding", "encoding"): "unsigned", ("IntegerDataEncoding", "byteOrder"): "mostSignificantByteFirst",
+    ("FloatDataEncoding", "encoding"): "IEEE754", ("FloatDataEncoding", "byteOrder"): "mostSignificantByteFirst",
+    ("StringDataEncoding", "encoding"): "UTF-8",
+    ("SplineCalibrator", "order"): "0", ("SplineCalibrator", "extrapolate"): "false",
+    ("SequenceContainer", "abstract"): "false",
+    ("LinearAdjustment", "slope"): "0", ("LinearAdjustment", "intercept"): "0",
+}
 
 
 def render_xml(doc: Doc, style: str = "xtce", comments=None, whitespace: bool = False,
-               tree: Optional[El] = None, bool_case: str = "lower") -> bytes:
+               tree: Optional[El] = None, bool_case: str = "lower", omit_defaults: bool = False) -> bytes:
     """Serialise.  comments: None | 'all' | set of position indices (see count_positions).
     bool_case: spelling of boolean attribute values, 'lower' (true/false), 'title' (True/False) or 'upper' (TRUE/FALSE); the library reads
     all three alike in every place where it reads a boolean."""
@@ -460,6 +475,10 @@ def render_xml(doc: Doc, style: str = "xtce", comments=None, whitespace: bool = 
 
     def emit(e: El, depth: int, is_root=False):
         av = dict(e.attrs)
+        if omit_defaults:
+            for k in list(av):
+                if DEFAULT_ATTRS.get((e.tag, k)) == str(av[k]):
+                    del av[k]
         if bool_case != "lower":
             for k in BOOL_ATTRS:
                 if av.get(k) in ("true", "false"):
@@ -474,7 +493,10 @@ def render_xml(doc: Doc, style: str = "xtce", comments=None, whitespace: bool = 
                 attrs += f' xmlns:xsi="{XSI_URI}"'
         tag = pfx + e.tag
         if not e.children and e.text is None:
-            out.append(f"<{tag}{attrs}/>")
+            if want_comment():   # a comment as the only content of an otherwise empty element
+                out.append(f"<{tag}{attrs}><!-- c{pos[0]} --></{tag}>")
+            else:
+                out.append(f"<{tag}{attrs}/>")
             return
         out.append(f"<{tag}{attrs}>")
         if e.text is not None:
